@@ -971,6 +971,101 @@ fn under_item<R>(parent: u64, call: u64, i: usize, f: impl FnOnce() -> R) -> R {
     r
 }
 
+/// Registry of "run one more item of the parallel iterator I am a worker of", per task: what a
+/// pool thread can pick up while it is blocked on nested work.
+mod steal {
+    use std::cell::RefCell;
+    use std::collections::HashMap;
+
+    #[derive(Clone, Copy)]
+    pub struct StepPtr(pub *const (dyn Fn() -> bool + 'static));
+
+    thread_local! {
+        static STACKS: RefCell<(u64, HashMap<usize, Vec<StepPtr>>)> = RefCell::new((0, HashMap::new()));
+    }
+
+    pub struct Registered {
+        task: usize,
+        epoch: u64,
+    }
+
+    impl Registered {
+        pub fn new<'a>(task: usize, f: &'a (dyn Fn() -> bool + 'a)) -> Registered {
+            let epoch = simctx::epoch();
+            // lifetime erased: the entry is removed when this guard drops, before `f` does
+            let p: *const (dyn Fn() -> bool + 'a) = f;
+            let p: *const (dyn Fn() -> bool + 'static) = unsafe { std::mem::transmute(p) };
+            STACKS.with(|s| {
+                let mut s = s.borrow_mut();
+                if s.0 != epoch {
+                    s.0 = epoch;
+                    s.1.clear();
+                }
+                s.1.entry(task).or_default().push(StepPtr(p));
+            });
+            Registered { task, epoch }
+        }
+    }
+
+    impl Drop for Registered {
+        fn drop(&mut self) {
+            let _ = STACKS.try_with(|s| {
+                if let Ok(mut s) = s.try_borrow_mut() {
+                    if s.0 == self.epoch {
+                        if let Some(v) = s.1.get_mut(&self.task) {
+                            v.pop();
+                        }
+                    }
+                }
+            });
+        }
+    }
+
+    thread_local! {
+        static STEALING: RefCell<(u64, std::collections::HashSet<usize>)> = RefCell::new((0, std::collections::HashSet::new()));
+    }
+
+    /// May `task` start picking up outer items (it is not already inside a picked-up item)?
+    pub fn enter(task: usize) -> bool {
+        let epoch = simctx::epoch();
+        STEALING.with(|s| {
+            let mut s = s.borrow_mut();
+            if s.0 != epoch {
+                s.0 = epoch;
+                s.1.clear();
+            }
+            s.1.insert(task)
+        })
+    }
+
+    pub struct Leave(pub usize, pub bool);
+    impl Drop for Leave {
+        fn drop(&mut self) {
+            let _ = STEALING.try_with(|s| {
+                if let Ok(mut s) = s.try_borrow_mut() {
+                    if self.1 {
+                        s.1.remove(&self.0);
+                    }
+                }
+            });
+        }
+    }
+
+    pub fn top(task: usize) -> Option<StepPtr> {
+        if !simctx::active() {
+            return None;
+        }
+        let epoch = simctx::epoch();
+        STACKS.with(|s| {
+            let s = s.borrow();
+            if s.0 != epoch {
+                return None;
+            }
+            s.1.get(&task).and_then(|v| v.last().copied())
+        })
+    }
+}
+
 struct Queue {
     /// per-worker [lo, hi) ranges (Chunks) or a single shared range in slot 0 (other policies)
     ranges: Vec<(usize, usize)>,
@@ -1055,35 +1150,82 @@ pub(crate) fn drive<P: ParallelIterator>(p: &P, short: Short) -> Vec<(usize, Vec
     let results: StdMutex<Vec<(usize, Vec<P::Item>)>> = StdMutex::new(Vec::with_capacity(n));
     use shuttle::sync::atomic::Ordering::SeqCst;
 
+    // One unit of a worker's loop: take an item and run it. Returns false when there is nothing
+    // (more) to do for worker `w`.
+    let step = |w: usize| -> bool {
+        if short == Short::Any && found.load(SeqCst) {
+            return false;
+        }
+        let next = {
+            let mut q = queue.lock().unwrap();
+            take_item(&mut q, take, w)
+        };
+        let Some(i) = next else { return false };
+        if short == Short::First && best.load(SeqCst) < i {
+            simctx::with(|c| c.n_skipped_after_found += 1);
+            return true;
+        }
+        simctx::log(simctx::EV_TAKE, w as u64, i as u64);
+        let mut o = Vec::new();
+        under_item(parent, call, i, || p.produce(i, &mut |t| o.push(t)));
+        if !o.is_empty() {
+            match short {
+                Short::Any => found.store(true, SeqCst),
+                Short::First => {
+                    best.fetch_min(i, SeqCst);
+                }
+                Short::No => {}
+            }
+        }
+        results.lock().unwrap().push((i, o));
+        true
+    };
+
+    // Is the caller itself a pool worker (a task running items of an enclosing parallel
+    // iterator)? Then it is a pool THREAD that blocks here until the inner work is done, and
+    // two things rayon does are modelled: (1) one of the inner workers is that same thread (it
+    // sees the thread's thread-locals); (2) while it waits, the thread may run other pending
+    // work of the pool on top of its stack, in particular further items of the enclosing
+    // iterator (work stealing while blocked; the source of "lock held across a parallel call"
+    // deadlocks and of re-entrancy into thread-local state).
+    let caller = me();
+    let outer = steal::top(caller);
+    let caller_identity = if outer.is_some() { Some(simctx::tls::current_identity()) } else { None };
+
+    // The outer items are run BEFORE the inner workers are spawned: the legal schedule in which
+    // the inner jobs have been taken by threads that have not got round to them yet. (Running
+    // them while the inner workers are live would need two overlapping shuttle scopes on one
+    // task, which shuttle's scope does not support: it blocks its owner once, and any scope's
+    // last thread wakes it.)
+    if let Some(outer_step) = outer {
+        // how many outer items this thread picks up while it is blocked: the stubs' own stream.
+        // Not inside an item that was itself picked up this way: simulated stacks are small.
+        let entered = steal::enter(caller);
+        let _leave = steal::Leave(caller, entered);
+        let k = if entered { simctx::with(|c| if c.steal { c.aux.below(3) } else { 0 }) } else { 0 };
+        for _ in 0..k {
+            simctx::with(|c| c.n_steals_attempted += 1);
+            // SAFETY: the pointer was registered by this very task further up its own stack,
+            // in a frame that cannot return before this function does
+            let more = unsafe { (*outer_step.0)() };
+            if !more {
+                break;
+            }
+            simctx::with(|c| c.n_steals_ran += 1);
+        }
+    }
     shuttle::thread::scope(|s| {
         for w in 0..workers {
-            let (queue, found, best, results) = (&queue, &found, &best, &results);
-            s.spawn(move || loop {
-                if short == Short::Any && found.load(SeqCst) {
-                    break;
-                }
-                let next = {
-                    let mut q = queue.lock().unwrap();
-                    take_item(&mut q, take, w)
-                };
-                let Some(i) = next else { break };
-                if short == Short::First && best.load(SeqCst) < i {
-                    simctx::with(|c| c.n_skipped_after_found += 1);
-                    continue;
-                }
-                simctx::log(simctx::EV_TAKE, w as u64, i as u64);
-                let mut o = Vec::new();
-                under_item(parent, call, i, || p.produce(i, &mut |t| o.push(t)));
-                if !o.is_empty() {
-                    match short {
-                        Short::Any => found.store(true, SeqCst),
-                        Short::First => {
-                            best.fetch_min(i, SeqCst);
-                        }
-                        Short::No => {}
+            let step = &step;
+            s.spawn(move || {
+                if w == 0 {
+                    if let Some(id) = caller_identity {
+                        simctx::tls::adopt(id);
                     }
                 }
-                results.lock().unwrap().push((i, o));
+                let f = move || step(w);
+                let _reg = steal::Registered::new(me(), &f);
+                while f() {}
             });
         }
     });
